@@ -1416,16 +1416,19 @@ class _TextReader:
         token = self.tok.get()
         what = token.value
         if what == "id":
-            self.id = self.tok.get_int()
+            self.id = self.tok.get_uint16()
         elif what == "flags":
             while True:
                 token = self.tok.get()
                 if not token.is_identifier():
                     self.tok.unget(token)
                     break
-                self.flags = self.flags | dns.flags.from_text(token.value)
+                try:
+                    self.flags = self.flags | dns.flags.from_text(token.value)
+                except KeyError:
+                    raise dns.exception.SyntaxError(f"unknown flag '{token.value}'")
         elif what == "edns":
-            self.edns = self.tok.get_int()
+            self.edns = self.tok.get_uint8()
             self.ednsflags = self.ednsflags | (self.edns << 16)
         elif what == "eflags":
             if self.edns < 0:
@@ -1435,18 +1438,31 @@ class _TextReader:
                 if not token.is_identifier():
                     self.tok.unget(token)
                     break
-                self.ednsflags = self.ednsflags | dns.flags.edns_from_text(token.value)
+                try:
+                    self.ednsflags = self.ednsflags | dns.flags.edns_from_text(
+                        token.value
+                    )
+                except KeyError:
+                    raise dns.exception.SyntaxError(
+                        f"unknown EDNS flag '{token.value}'"
+                    )
         elif what == "payload":
-            self.payload = self.tok.get_int()
+            self.payload = self.tok.get_uint16()
             if self.edns < 0:
                 self.edns = 0
         elif what == "opcode":
             text = self.tok.get_string()
-            self.opcode = dns.opcode.from_text(text)
+            try:
+                self.opcode = dns.opcode.from_text(text)
+            except ValueError:
+                raise dns.exception.SyntaxError(f"opcode '{text}' is out of range")
             self.flags = self.flags | dns.opcode.to_flags(self.opcode)
         elif what == "rcode":
             text = self.tok.get_string()
-            self.rcode = dns.rcode.from_text(text)
+            try:
+                self.rcode = dns.rcode.from_text(text)
+            except ValueError:
+                raise dns.exception.SyntaxError(f"rcode '{text}' is out of range")
         else:
             raise UnknownHeaderField
         self.tok.get_eol()
